@@ -10,6 +10,9 @@ import "github.com/free5gc/chf/pkg/factory"
 // assumed contracts of sm.Client.DialNetworkTLS and diam.Conn.Close)
 var ghostLiveConns int
 
+// GhostRequests: number of requests handed to the peer (ghost; advanced by the assumed clause below)
+var GhostRequests int
+
 var _ = factory.ChfConfig // the contracts below mention the configuration
 
 // A completed request leaves no connection behind, on every return path (C18).
@@ -17,3 +20,5 @@ var _ = factory.ChfConfig // the contracts below mention the configuration
 //@   requires ue != nil && sur != nil && ue.RatingClient != nil
 //@   requires [C18 C20] factory.ChfConfig != nil && factory.ChfConfig.Configuration != nil && factory.ChfConfig.Configuration.RfDiameter != nil && factory.ChfConfig.Configuration.RfDiameter.Tls != nil
 //@   ensures ghostLiveConns == old(ghostLiveConns)
+//@   ensures assumed GhostRequests >= old(GhostRequests)
+//@   modifies global(&GhostRequests)
